@@ -156,6 +156,11 @@ class MachineInterp(flow.Interp):
                 s2.obs['gcur'] = s2.refs.get(loc + ('_currentTransition',))
                 s2.obs['gpend'] = s2.refs.get(loc + ('_pendingTransition',))
                 s2.obs['rounds'] = min(2, s2.obs.get('rounds', 0) + 1)
+                gp = s2.obs['gpend']
+                if gp is not None and s2.cconst(s2.get(gp + ('destination',))) != 255:
+                    if s2.obs.get(('copy', gp)) != REQUEST:
+                        self.viol('C07.c', 'the pending transition shown to guards is not a whole copy of the outstanding request', e, s2,
+                                  {'last whole-object source': str(s2.obs.get(('copy', gp)))})
                 if s2.const_of(loc + ('_cancelled',)) != 0:
                     self.viol('C03.b', 'a guard round starts with a control that is already cancelled', e, s2)
                 if s2.refs.get(loc + ('_core',)) != CORE:
@@ -178,6 +183,17 @@ class MachineInterp(flow.Interp):
                 self.viol('C03.c', 'a transition is accepted although a guard cancelled it in this round', node, st)
         if dst == PREV:
             st.obs['prev_src'] = src
+        if dst[-1] in ('pendingTransition', 'currentTransition'):
+            st.obs[('copy', dst)] = src
+
+    def on_write(self, st, loc, frame, node):
+        # a field-level write into a transition object that was a whole copy of another one breaks the copy relation,
+        # except the emptiness marker written by clear() (destination := invalid), which ends the object's life as a transition
+        for n in (1, 2):
+            obj = loc[:-n]
+            if obj and obj[-1] in ('pendingTransition', 'currentTransition') and ('copy', obj) in st.obs:
+                if not frame.fid.split('/')[-1].startswith('ctor:'):
+                    st.obs[('copy', obj)] = 'modified'
 
     def havoc_control(self, st, flav, cloc):
         for p in self.havoc.sets.get(flav, ()):  # computed effect set of the flavour's public interface
@@ -351,7 +367,7 @@ class MachineInterp(flow.Interp):
                 self.viol('C01.a', 'a root callback (%s) is delivered while the machine is not fully entered' % kind, call, st, {'E': E, 'R': R})
 
     # ------------------------------------------------------------ return checks
-    def check_return(self, st, expect, fn):
+    def check_return(self, st, expect, fn, retval=None):
         E, R = st.obs.get('E'), st.obs.get('R')
         active = st.get(ACTIVE)
         ent = st.obs.get('ent')
@@ -394,6 +410,23 @@ class MachineInterp(flow.Interp):
                         self.viol('C11.b', 'previousTransition() is not the transition that was applied (field %s)' % '.'.join(f), where, st,
                                   {'previous': self.describe(st, st.get(PREV + f)), 'accepted': self.describe(st, st.get(cur + f))})
                         break
+        if self.mode == 'replay' and self.entry_name == 'replayTransition':
+            d = st.get(('A', 'replayTransition', 'destination'))
+            rv = None
+            if retval is not None and retval[0] == 'b':
+                rv = retval[1]
+            elif retval is not None and retval[0] == 's':
+                k = st.cconst(retval[1])
+                rv = None if k is None else bool(k)
+            a0 = st.obs.get('a0')
+            if st.cconst(d) == 255:
+                if rv is not False or st.obs.get('nev', 0) != 0 or not (isinstance(a0, tuple) and a0[1] == active):
+                    self.viol('C11.c', 'replayTransition(invalid id) does not return false leaving the activity state untouched', where, st,
+                              {'returns': rv, 'lifecycle events': st.obs.get('nev')})
+            elif st.excluded(d, 255):
+                if rv is not True or d != active:
+                    self.viol('C11.c', 'replayTransition(valid id) does not return true with that state active', where, st,
+                              {'returns': rv, 'active': self.describe(st, active)})
         if facts.cfg_has(self.F.cfg, 'H') and self.mode == 'replay' and expect == 'active':
             pd = st.get(PREV + ('destination',))
             if st.cconst(pd) != 255 and pd != active:
@@ -501,7 +534,7 @@ def analyse(F, run, rules_wanted):
                 st.exclude(st.get(('A', 'replayEnter', 'destination')), 255)
             outs = I.run_entry(fn, INST, st)
             for s2, v in outs:
-                I.check_return(s2, expect, fn)
+                I.check_return(s2, expect, fn, v)
             n += 1
             results.append((fn, mode, pre, I))
     for fn in F.find('RV_'):
@@ -527,3 +560,94 @@ def analyse(F, run, rules_wanted):
             n += 1
             results.append((fn, 'initial', 'fresh object', I))
     return n, results
+
+
+# ------------------------------------------------------------------------------------------------
+_cache = {}
+
+FLOW_RULES = {
+    'C01.a': 'typestate: enter/exit/reenter pairing, root before/after, dispatch on the active state, activity at return',
+    'C02.d': 'the state entered is the destination of the last transition that survived its guards; none survived => nothing happens',
+    'C02.e': 'no requested prong is left in the registry at return',
+    'C03.a': 'exit guard on the active state first, entry guard on the requested state, nothing consulted after a cancellation',
+    'C03.b': 'fresh guard control per round; the pending transition shown is the request under evaluation',
+    'C03.c': 'acceptance only on the not-cancelled edge',
+    'C06.b': 'controls are bound to the instance core',
+    'C07.c': 'pending is a whole copy of the request; current a whole copy of pending; previous a whole copy of current',
+    'C11.b': 'previousTransition() equals the accepted transition field by field',
+    'C11.c': 'replay enters exactly the replayed destination',
+    'C12.d': 'load enters exactly the state read from the buffer',
+}
+
+
+def flow_obligations(run, wanted, cfgs=None, witness='w_core'):
+    """run the flow analysis over the tier's configurations and turn the observer verdicts into obligations for the
+    rule ids in `wanted` (a set)."""
+    cfgs = cfgs or facts.configs(run.tier)
+    jobs = [(witness, c, v) for c in cfgs for v in facts.variants(run.tier)]
+    facts.prefetch(jobs)
+    total_entries = 0
+    for (w, c, v) in jobs:
+        key = (w, c, v)
+        if key not in _cache:
+            F = facts.load(w, c, v)
+            run.require(F.unknown == 0, 'unknown AST nodes in %s' % F.label())
+            sub = type(run)(run.pid, run.tier)
+            n, res = analyse(F, sub, {'C01.c'})
+            summary = []
+            for fn, mode, pre, I in res:
+                summary.append({'fn': fn.short, 'pat': fn.pat, 'cls': ir.short_type(fn.cls or ''), 'mode': mode, 'pre': pre,
+                                'violations': list(I.violations), 'stats': dict(I.stats, calls=I.calls_interpreted, events=I.events_seen,
+                                                                                 max_states=I.max_states)})
+            _cache[key] = (summary, sub.obligations, F.label())
+            facts.drop(F)
+        summary, c01c, label = _cache[key]
+        if 'C01.c' in wanted:
+            for o in c01c:
+                run.ob(o['rule'], o['instance'], o['ok'], where=o.get('where'), detail=o.get('detail'), key=o.get('key'))
+        for ent in summary:
+            total_entries += 1
+            run.count('entry points interpreted')
+            run.count('library calls interpreted', ent['stats']['calls'])
+            run.count('dispatch/root events observed', ent['stats']['events'])
+            run.count('guard rounds', ent['stats']['guard_rounds'])
+            by_rule = {}
+            for (rule, vkey, where, detail) in ent['violations']:
+                by_rule.setdefault(rule, []).append((vkey, where, detail))
+            for rule in sorted(wanted):
+                if rule not in FLOW_RULES:
+                    continue
+                if not applicable(rule, ent, c):
+                    continue
+                vs = by_rule.get(rule, [])
+                inst = '%s [%s, pre=%s] %s: %s' % (ent['fn'], machine_tag(ent['cls']), ent['pre'], label, FLOW_RULES[rule])
+                if not vs:
+                    run.ob(rule, inst, True, where=ent['pat'])
+                else:
+                    seen = set()
+                    for vkey, where, detail in vs:
+                        if vkey in seen:
+                            continue
+                        seen.add(vkey)
+                        run.ob(rule, inst, False, where=where or ent['pat'], detail=detail, key='%s: %s' % (ent['fn'], vkey))
+    run.extra.setdefault('flow', {})['entries'] = total_entries
+    return total_entries
+
+
+def machine_tag(cls):
+    m = re.search(r'(Automatic|Manual)', cls)
+    act = m.group(1) if m else '?'
+    return act
+
+
+def applicable(rule, ent, cfg):
+    mode = ent['mode']
+    if rule in ('C02.d', 'C03.a', 'C03.b', 'C03.c', 'C07.c'):
+        return mode in ('guarded', 'initial')
+    if rule == 'C11.b':
+        return mode in ('guarded', 'initial') and facts.cfg_has(cfg, 'H')
+    if rule == 'C11.c':
+        return mode == 'replay'
+    if rule == 'C12.d':
+        return mode == 'load'
+    return True
